@@ -369,6 +369,7 @@ type FuncSpec struct {
 	Cases       []*Clause // case analysis over the inputs: the function is verified once per case (added to the preconditions); their disjunction is an obligation
 	InstReads   bool      // quantified hypotheses about a slice's object are instantiated at every index the code reads from it
 	SplitReturns bool     // (inline spec) the function's return paths are not merged at its call sites
+	ThoroughOnly bool     // verified in the thorough tier only (proof too slow for the per-change check)
 	PrunePaths  bool      // branches whose path condition a solver refutes (within 2 s) are not executed
 	InlineCalls []string // callees executed from their bodies (with this function's unroll bound) although they have contracts
 	UnrollComplete bool
@@ -399,7 +400,7 @@ type Contracts struct {
 	ConstBytes map[string][]byte // pkgpath.Name -> contents of a constant package-level byte slice
 }
 
-var clauseKw = regexp.MustCompile(`^(split-paths|split-returns|prune-paths|instantiate-reads|unroll-loops|case|requires|ensures|modifies|loop|end|inline-calls|int-overflow-checked|inline|trusted|pure-effects|noalloc|unroll|reveal)\b`)
+var clauseKw = regexp.MustCompile(`^(split-paths|split-returns|thorough-only|prune-paths|instantiate-reads|unroll-loops|case|requires|ensures|modifies|loop|end|inline-calls|int-overflow-checked|inline|trusted|pure-effects|noalloc|unroll|reveal)\b`)
 var labelRe = regexp.MustCompile(`^([A-Za-z_][A-Za-z0-9_]*)\s*(\[[A-Z0-9, ]*\])?\s*:\s*(.*)$`)
 
 func parseTags(s string) []string {
@@ -642,6 +643,8 @@ func (cs *Contracts) parseFile(pkg, file, data string) {
 			cur.SplitPaths = true
 		case s == "prune-paths":
 			cur.PrunePaths = true
+		case s == "thorough-only":
+			cur.ThoroughOnly = true
 		case s == "split-returns":
 			cur.SplitReturns = true
 		case s == "instantiate-reads":
